@@ -3,6 +3,7 @@
 from __future__ import annotations
 
 from ..common import Ctx
+from .. import examples
 from . import render
 
 FOCUS = {"C05": ["vertices"], "C06": ["file", "addressing"], "C07": ["edges"], "C10": ["addressing", "edges"]}["C06"]
@@ -19,4 +20,5 @@ def run(ctx: Ctx) -> None:
 
 
 def extra(ctx: Ctx) -> None:
-    pass
+    # the repository's example scripts as recorded executions: File.tla well-formedness of every dictionary they write
+    examples.judge_examples(ctx, "C06")
